@@ -267,7 +267,11 @@ class Interp:
     def module_attr(self, st, mod, name, missing=None):
         """Resolve a module-level name of a repository module (lazily, memoised)."""
         if name in mod.cache:
-            return mod.cache[name]
+            cached = mod.cache[name]
+            # module-level objects (e.g. AIR = FluidProperties(...)) live on the heap of the state that first
+            # evaluated them: re-evaluate when the current heap does not hold the object
+            if not (isinstance(cached, Ref) and cached.id not in st.heap):
+                return cached
         v = missing
         if name in mod.defs:
             node = mod.defs[name]
